@@ -1113,7 +1113,12 @@ func getPrintableCmd(c *cmd, cf *Config) string {
 	p = strings.Replace(p, "$SEQ", strconv.Itoa(c.seq), 1)
 	for i, r := range c.ref {
 		prefix := c.typ.ref[i]
-		name := cf.lookup[prefix][r][0].name
+		// Leave name unchanged, if referenced command is unknown
+		// after merging inconsistent configs.
+		name := r
+		if l := cf.lookup[prefix][r]; len(l) > 0 {
+			name = l[0].name
+		}
 		p = strings.Replace(p, "$REF", name, 1)
 	}
 	return p
